@@ -563,6 +563,18 @@ def _keyed_lowering(chk: Check, f: Func, fl: Flow, key: str, op_p: str, acc_p: s
         site = next((x for x in fl.sites if x.node is call), None)
         if site is None:
             raise AnalysisError(f"{f.where}: write site at line {call.lineno} not reached by the walker")
+        # a write repeated for every group (channel block) the op is launched for must happen for EVERY group: the registers keep the last group's
+        # values when the op has run, so a group whose writes are skipped (the first one, `already set up`) sees stale values as soon as the same
+        # launch executes again without its setup in between (accfg-dedup hoists loop-invariant setup fields)
+        for l in site.loops:
+            if isinstance(l, ast.For) and isinstance(l.target, ast.Name):
+                lv = l.target.id
+                on_lv = [ast.unparse(fa.expr) for fa in site.facts if fa.kind in ("atom", "not") and lv in norm.free_names(fa.expr)]
+                depends = lv in norm.free_names(fl.cone(v, site, inline=0)) or lv in norm.free_names(site.expand(v))
+                if on_lv and depends:
+                    chk.bad("C04.setup-lowering", f"{key}:every-group:{call.lineno}", f"{f.module.relpath}:{call.lineno}",
+                            f"this write of a value selected by the loop variable `{lv}` only happens when {on_lv}: for the other iterations the register keeps what the previous "
+                            "execution of the launch left in it (the last group's value)")
         acone, vcone = fl.cone(a, site, inline=0), fl.cone(v, site, inline=0)
         hits = [(tbl, m) for tbl in ("field_items", "launch_field_items") for _, m in norm.find(T(f"dict({acc_p}.{tbl}())[$k]"), acone)]
         ktxt = ast.unparse(norm.primary(hits[0][1]["k"])) if hits else "?"
